@@ -297,7 +297,8 @@ class TLSContextV(V):
 # --------------------------------------------------------------------------- array-backed symbolic lists of bytes
 
 BARR = z3.ArraySort(z3.IntSort(), z3.StringSort())
-join_arr = z3.Function("join_bytes", BARR, z3.IntSort(), z3.StringSort())      # b"".join(list) for a list of symbolic length
+join_arr = z3.Function("join_bytes", BARR, z3.IntSort(), z3.StringSort())
+join_sep = z3.Function("join_bytes_sep", BARR, z3.IntSort(), z3.StringSort(), z3.StringSort())     # sep.join(list)      # b"".join(list) for a list of symbolic length
 
 
 class BytesArrV(V):
@@ -349,9 +350,9 @@ class BytesArrV(V):
 
     def join_with(self, E, sep, st):
         s = z3.simplify(sep.t)
-        if not (z3.is_string_value(s) and s.as_string() == ""):
-            raise OutOfReach("join of symbolic list with a separator")
         a, n = self.get(st)
+        if not (z3.is_string_value(s) and s.as_string() == ""):
+            return [Ev(st, BytesV(join_sep(a, n, sep.t)))]
         st.assume(z3.Implies(n == 0, join_arr(a, n) == ""))
         return [Ev(st, BytesV(join_arr(a, n)))]
 
@@ -372,23 +373,40 @@ class PyArrV(V):
     `elem(i)` (optional) rebuilds the element as a typed value (or kind alternatives) when iterated."""
     kind = "pyarr"
 
-    def __init__(self, ref, elem=None):
-        self.ref, self.elem = ref, elem
+    def __init__(self, ref, elem=None, oneshot=False):
+        self.ref, self.elem, self.oneshot = ref, elem, oneshot
 
     def get(self, st):
-        return st.heap[self.ref]
+        return st.heap[self.ref][:2]
 
     def truth(self, E, st):
+        if self.oneshot:
+            return True                      # an iterator object is always truthy
         return self.get(st)[1] > 0
 
     def length(self, E, st):
+        if self.oneshot:
+            return None                      # len() of an iterator: TypeError
         return self.get(st)[1]
 
     def iter_view(self, E, st):
+        """A-iter: a re-iterable collection yields the same sequence every time; a one-shot iterator yields it once
+        and nothing afterwards."""
         a, n = self.get(st)
+        if self.oneshot:
+            rec = st.heap[self.ref]
+            if len(rec) > 2 and rec[2]:
+                return z3.IntVal(0), (lambda i: OpaqueV(a[i]))
+            st.heap[self.ref] = [a, n, True]
         if self.elem is not None:
             return n, self.elem
         return n, (lambda i: OpaqueV(a[i]))
+
+    def to_list(self, E, st):
+        """list(iterable): walks it once (a one-shot iterator is consumed) and yields a re-iterable list"""
+        n, _item = self.iter_view(E, st)
+        a, _n = self.get(st)
+        return [Ev(st, new_pyarr(st, a, n, elem=self.elem, oneshot=False))]
 
     def call_method(self, E, name, st, args, kwargs, fx, site):
         a, n = self.get(st)
@@ -396,16 +414,43 @@ class PyArrV(V):
             t = E.inject(args[0], st)
             if t is None:
                 raise OutOfReach("append of %s to a symbolic list" % args[0].kind)
-            st.heap[self.ref] = [z3.Store(a, n, t), n + 1]
+            st.heap[self.ref] = [z3.Store(a, n, t), n + 1, False]
             st.ghost["last_py_append"] = args[0]
             return [Ev(st, NONE)]
         raise OutOfReach("object list method " + name)
 
 
-def new_pyarr(st, arr=None, n=None, elem=None):
+def new_pyarr(st, arr=None, n=None, elem=None, oneshot=False):
     arr = arr if arr is not None else z3.Const(fresh_name("parr"), PARR)
     n = n if n is not None else z3.IntVal(0)
-    return PyArrV(st.alloc([arr, n]), elem)
+    return PyArrV(st.alloc([arr, n, False]), elem, oneshot)
+
+
+class DedupV(V):
+    """dict.fromkeys(seq), used only through list(...) / iteration: the first occurrences of seq's elements in order.
+    Over a symbolic list[bytes] the result is a FRESH list b[0..m) constrained by a sound but incomplete set of facts
+    (A-dedup): m <= n; n > 0 => m > 0 and b[0] == a[0]; b[j] == a[idx(j)] with j <= idx(j) < n, idx strictly increasing.
+    (That equal lengths mean an unchanged list is NOT stated: obligations needing it stay undecided, never wrong.)"""
+    kind = "dedup"
+
+    def __init__(self, src):
+        self.src = src
+
+    def to_list(self, E, st):
+        items = E.iter_items(self.src, st)
+        if items is not None and len(items) <= 1:
+            return [Ev(st, st.new_list(list(items)))]
+        if isinstance(self.src, BytesArrV):
+            a, n = self.src.get(st)
+            b = z3.Const(fresh_name("dedup"), BARR)
+            m = z3.Int(fresh_name("dedup_n"))
+            idx = z3.Function(fresh_name("dedup_idx"), z3.IntSort(), z3.IntSort())
+            j, k = z3.Int("j!dd"), z3.Int("k!dd")
+            st.assume(z3.And(m >= 0, m <= n, z3.Implies(n > 0, z3.And(m > 0, b[0] == a[0], idx(0) == 0))))
+            st.assume(z3.ForAll([j], z3.Implies(z3.And(j >= 0, j < m), z3.And(idx(j) >= j, idx(j) < n, b[j] == a[idx(j)]))))
+            st.assume(z3.ForAll([j, k], z3.Implies(z3.And(j >= 0, j < k, k < m), z3.And(idx(j) < idx(k), b[j] != b[k]))))
+            return [Ev(st, BytesArrV(st.alloc([b, m])))]
+        raise OutOfReach("dict.fromkeys over %s" % self.src.kind)
 
 
 class SymDictV(V):
@@ -535,3 +580,41 @@ def comprehension_hook(E, e, it, st, fx):
         a, n = it.get(st)
         return [Ev(st, ConstMapV(a, n, E.const(e.value.value, st)))]
     return None
+
+
+class RemapV(V):
+    """dict(zip(wire_keys, caller_keys)) for two sequences of symbolic length: wire[0..n) (bytes), orig[0..m) (Py).
+    Lookup of a wire key returns the caller's key object paired with its *last* occurrence among the first
+    min(n, m) positions (A-dict: zip stops at the shorter one, later duplicates win); KeyError if absent."""
+    kind = "remap"
+
+    def __init__(self, wire, n, orig, m):
+        self.wire, self.n, self.orig, self.m = wire, n, orig, m
+
+    def get_item(self, E, idx, st, fx):
+        if not isinstance(idx, BytesV):
+            raise OutOfReach("remapped_keys[...] with a non-bytes key")
+        k = z3.If(self.n < self.m, self.n, self.m)
+        j, j2 = z3.Int(fresh_name("rmj")), z3.Int(fresh_name("rmj2"))
+        hint = st.ghost.get("remap_hint")
+        if hint is not None:
+            # cut: the scenario names the position at which this wire key was zipped; proved here, used afterwards
+            h = hint(st)
+            fact = z3.And(0 <= h, h < k, self.wire[h] == idx.t, z3.ForAll([j2], z3.Implies(z3.And(h < j2, j2 < k), self.wire[j2] != idx.t)))
+            c = st.ghost.get("cut_count", 0)
+            st.ghost["cut_count"] = c + 1
+            E.oblige("%scut/remapped_keys-finds-the-requested-key-at-its-own-position#%d%s" % (E.oid_prefix, c, E.case_suffix), st, fact, kind="lemma")
+            st.assume(fact)
+            st.ghost["last_remap_pos"] = h
+            return [Ev(st, OpaqueV(self.orig[h], tag="caller-key"))]
+        found = z3.Exists([j], z3.And(0 <= j, j < k, self.wire[j] == idx.t))
+        out = []
+        for b, ok in E.branch(st, found):
+            if not ok:
+                out.append(Ev(b, exc=ExcV("KeyError", [idx])))
+                continue
+            p = z3.Int(fresh_name("remap_pos"))
+            b.assume(0 <= p, p < k, self.wire[p] == idx.t, z3.ForAll([j2], z3.Implies(z3.And(p < j2, j2 < k), self.wire[j2] != idx.t)))
+            b.ghost["last_remap_pos"] = p
+            out.append(Ev(b, OpaqueV(self.orig[p], tag="caller-key")))
+        return out
